@@ -349,19 +349,31 @@ def heap_script(W: VC.World, cls, m, rng, is_msg: bool) -> List[str]:
     return lines
 
 
-def run_timecode_case(cid: str, cls, m) -> List[str]:
+def is_registered_message(cls, m) -> bool:
+    """a message class of the registry (header-plus-data JSON can be decoded back to it)"""
+    from pyrtma.message import _msg_defs
+    from pyrtma.message_data import MessageData
+    return isinstance(m, MessageData) and _msg_defs.get(getattr(cls, "type_id", None)) is cls
+
+
+def run_timecode_case(cid: str, cls, m, info: Dict[str, Any] = None) -> List[str]:
     """header-plus-data JSON and the dict round trip of the header when the header class is the time-code variant
     (a case of its own: the driver reports the first false clause of a case only)"""
     from pyrtma.message import Message, get_header_cls
     W = VC.world()
     _flag_force_on(W.V)
-    hc = get_header_cls(True)
-    h = hc()
-    h.msg_type, h.num_data_bytes, h.src_mod_id, h.dest_mod_id = cls.type_id, ctypes.sizeof(cls), 11, 7
-    h.msg_count, h.send_time, h.version = 3, 0.25, cls.type_hash
-    h.utc_seconds, h.utc_fraction = 1700000000, 123456
-    hb = bytes(h)
     lines = [f"SER {cid}", "B0 " + VC.hx(bytes(m))]
+    try:
+        hc = get_header_cls(True)
+        h = hc()
+        h.msg_type, h.num_data_bytes, h.src_mod_id, h.dest_mod_id = cls.type_id, ctypes.sizeof(cls), 11, 7
+        h.msg_count, h.send_time, h.version = 3, 0.25, cls.type_hash
+        h.utc_seconds, h.utc_fraction = 1700000000, 123456
+        hb = bytes(h)
+    except Exception as e:  # noqa: BLE001
+        if info is not None:
+            info["trouble"] = f"a time-code header for {cls.__name__} could not be built: {type(e).__name__}: {e}"[:300]
+        return lines + ["COPY 0", "END"]
 
     def whole(minify):
         r = Message.from_json(Message(h, m).to_json(minify=minify))
@@ -381,14 +393,26 @@ def run_timecode_case(cid: str, cls, m) -> List[str]:
     return lines
 
 
-def run_case(cid: str, cls, m) -> List[str]:
+def run_case(cid: str, cls, m, info: Dict[str, Any] = None) -> List[str]:
+    """`info["trouble"]`: the model-correspondence part of the block could not be produced because the code under test raised
+    where the unchanged code never does (`to_dict()` / `to_json()` of a message built through the field API); the round trips
+    (each one guarded on its own) are still observed and judged by the Spec."""
     W = VC.world()
-    from pyrtma.message import Message, get_header_cls, _msg_defs
-    from pyrtma.message_data import MessageData
-    from pyrtma.exceptions import InvalidMessageDefinition
     _flag_force_on(W.V)
     b0 = bytes(m)
-    lines = [f"SER {cid}"]
+    try:
+        lines = [f"SER {cid}"] + _corr_part(W, cls, m)
+    except Exception as e:  # noqa: BLE001
+        if info is not None:
+            info["trouble"] = f"to_dict / to_json of a {cls.__name__} built through the field API raised {type(e).__name__}: {e}"[:300]
+        lines = [f"SER {cid}"]
+    return lines + _trips_part(W, cls, m, b0, info)
+
+
+def _corr_part(W: VC.World, cls, m) -> List[str]:
+    from pyrtma.message import Message, get_header_cls, _msg_defs
+    from pyrtma.message_data import MessageData
+    lines: List[str] = []
     d = m.to_dict()
     lines.append("DESC " + " ".join(desc_tokens(W, cls)))
     lines.append("DICT " + " ".join(val_tokens(W, d)))
@@ -420,6 +444,14 @@ def run_case(cid: str, cls, m) -> List[str]:
         lines.append(f"FTOK {bits:016x} {tok}")
     for path, name, fty, off in leaves(W, cls):
         lines.append(f"LEAF {off} {VC.tok_fty(fty)} | {VC.tok_val(canon_val(W, dict_leaf(d, path, name)))}")
+    return lines
+
+
+def _trips_part(W: VC.World, cls, m, b0: bytes, info) -> List[str]:
+    from pyrtma.message import Message, get_header_cls, _msg_defs
+    from pyrtma.message_data import MessageData
+    from pyrtma.exceptions import InvalidMessageDefinition
+    lines: List[str] = []
     lines.append("B0 " + VC.hx(b0))
     bd = _trip(lambda: cls.from_dict(m.to_dict()))
     lines.append("BD " + ("err" if bd.startswith("err") else bd))
@@ -427,21 +459,27 @@ def run_case(cid: str, cls, m) -> List[str]:
     import random as _random
     import zlib as _zlib
     vr = _random.Random(_zlib.crc32(b0 + cls.__name__.encode()))
-    probes = [("self", m.to_dict())]
-    if len(b0) <= 2048:           # (big classes: the json.loads image is covered by the model's own fromJson on the text)
-        try:
-            probes.append(("json", json.loads(m.to_json(minify=True))))
-        except Exception:  # noqa: BLE001
-            pass
-    variants = dict_variants(W, cls, m.to_dict(), vr)
-    if len(b0) > 2048 and len(variants) > 2:
-        # the model stores array elements one by one like ctypes does (quadratic in the field size): big classes get two
-        # of the altered dictionaries per case, chosen at random, instead of all of them
-        variants = vr.sample(variants, 2)
-    probes += variants
-    for pname, v in probes:
-        toks = " ".join(val_tokens(W, v))
-        lines.append(f"FD {pname} " + _trip(lambda v=v: cls.from_dict(_copy.deepcopy(v))).split(":")[0] + " " + toks)
+    try:
+        probes = [("self", m.to_dict())]
+        if len(b0) <= 2048:           # (big classes: the json.loads image is covered by the model's own fromJson on the text)
+            try:
+                probes.append(("json", json.loads(m.to_json(minify=True))))
+            except Exception:  # noqa: BLE001
+                pass
+        variants = dict_variants(W, cls, m.to_dict(), vr)
+        if len(b0) > 2048 and len(variants) > 2:
+            # the model stores array elements one by one like ctypes does (quadratic in the field size): big classes get two
+            # of the altered dictionaries per case, chosen at random, instead of all of them
+            variants = vr.sample(variants, 2)
+        probes += variants
+        fd_lines = []
+        for pname, v in probes:
+            toks = " ".join(val_tokens(W, v))
+            fd_lines.append(f"FD {pname} " + _trip(lambda v=v: cls.from_dict(_copy.deepcopy(v))).split(":")[0] + " " + toks)
+        lines += fd_lines
+    except Exception as e:  # noqa: BLE001  (a `to_dict()` that raises or returns something that is no dictionary of the class)
+        if info is not None:
+            info.setdefault("trouble", f"the from_dict probes of a {cls.__name__} could not be built: {type(e).__name__}: {e}"[:300])
     lines.append("RT bytes " + _trip(lambda: cls.from_buffer_copy(bytes(m))))
     lines.append("RT dict " + bd)
     lines.append("RT json " + _trip(lambda: cls.from_json(m.to_json())))
@@ -459,6 +497,15 @@ def run_case(cid: str, cls, m) -> List[str]:
             h.send_time = 0.1
             h.version = version
             return h
+        try:
+            # (every later use builds its header the same way: if the validated API refuses these in-domain values, that is
+            # reported once, as a correspondence difference, and the header-plus-data trips are left out)
+            hdr(cls.type_hash), Message(hdr(0), m).to_json(minify=True)
+        except Exception as e:  # noqa: BLE001
+            is_msg = False
+            if info is not None:
+                info.setdefault("trouble", f"a header for {cls.__name__} could not be built / serialised: {type(e).__name__}: {e}"[:300])
+    if is_msg:
         for ver_name, ver in (("hash", cls.type_hash), ("zero", 0)):
             msg = Message(hdr(ver), m)
 
@@ -524,6 +571,13 @@ def run_case(cid: str, cls, m) -> List[str]:
     except Exception as e:  # noqa: BLE001
         lines.append("RT copy err:" + type(e).__name__)
     lines.append(f"COPY {shares}")
-    lines += heap_script(W, cls, m, vr, is_msg)
+    try:
+        lines += heap_script(W, cls, m, vr, is_msg)
+    except C.MachineryError:
+        raise
+    except Exception as e:  # noqa: BLE001
+        ctypes.memmove(ctypes.addressof(m), b0, len(b0))
+        if info is not None:
+            info.setdefault("trouble", f"the storage script on a {cls.__name__} raised {type(e).__name__}: {e}"[:300])
     lines.append("END")
     return lines
